@@ -72,6 +72,7 @@ Profile GetProfile(const std::string& name, bool thorough) {
   } else if (name == "C11") {
     p.twin_dyndep = true; p.check_convergence = false;
     p.gen.features |= F_DYNDEP | F_RESTAT | F_ORDERONLY;
+    p.w_dyndep_stir = 3;
     p.gen.features &= ~F_REGEN;
     p.w_del_log = 0; p.w_del_depfile = 0; p.w_regen = 0; p.w_inflate_log = 0;
     p.pm_cmd_fail = 0; p.pm_interrupt = 0; p.pm_crash = 0; p.pm_editor = 0; p.buggify = false;
@@ -97,6 +98,9 @@ namespace {
 // What the first world of a metamorphic pair did at each build, for the second.
 struct TwinBuild {
   bool comparable = false;               // successful and quiet
+  bool plain = false;                    // quiet, not a dry run, ended by exit
+  int exit_code = 0;
+  std::string last_words;                // tail of what ninja said
   std::set<int> ran;
   std::map<int, std::vector<std::string>> known_hidden;   // what had been discovered *before* this build
   std::map<std::string, std::string> contents;            // outputs after the build
@@ -586,6 +590,9 @@ struct Driver {
     if (twin_role == 1) {
       TwinBuild b;
       b.comparable = comparable;
+      b.plain = r.quiet() && !r.plan.dry && r.res.end == ProcResult::kExit;
+      b.exit_code = r.res.exit_code;
+      b.last_words = (r.res.err + r.res.out).substr(0, 200);
       b.ran = ran;
       b.known_hidden = known_before;
       b.contents = contents;
@@ -606,6 +613,9 @@ struct Driver {
     } else if (build_no < (int)twin->builds.size()) {
       const TwinBuild& b = twin->builds[build_no];
       const char* prop = prof.twin_deps ? "C10" : "C11";
+      // one variant builds, the other gives up (no command fails and no fault is injected in these profiles)
+      if (b.plain && r.quiet() && !r.plan.dry && r.res.end == ProcResult::kExit && (b.exit_code == 0) != (r.res.exit_code == 0) && prof.pm_cmd_fail == 0)
+        w.Report(prop, "twin_divergence", "build " + std::to_string(build_no) + ": the " + (prof.twin_deps ? "discovered-dependency" : "dyndep") + " variant exited " + std::to_string(b.exit_code) + " (" + b.last_words.substr(0, 120) + ") but the variant with the same information written in the manifest exited " + std::to_string(r.res.exit_code));
       if (b.comparable && comparable) {
         rr.stats.n["twin_builds_compared"]++;
         bool only_pending_restat = !b.pending_restat.empty();
@@ -1643,6 +1653,79 @@ struct Driver {
     }
   }
 
+  // C11: a dyndep file is regenerated mid-build while its consumer is clean under a dirty
+  // target, and the input the file adds comes from a statement that is clean itself but has
+  // to wait for an order-only dependency that is out of date and that nothing else in the
+  // build needs.  Only the dyndep information pulls that part of the graph into the plan.
+  // (the choice looks at the dyndep entries themselves: they are the same in both twin worlds)
+  void DoDyndepStir() {
+    struct Tup { int p, x, py, pz, t; std::string z; };
+    std::vector<Tup> tups;
+    // inputs of a statement, the ones its dyndep file adds included (in the second twin world
+    // those are written into imp_ins: the union is the same in both worlds)
+    auto inputs_of = [&](int c) {
+      const Stmt& cs = w.sc.stmts[c];
+      std::vector<std::string> v;
+      for (auto* l : {&cs.ins, &cs.imp_ins, &cs.oo_ins, &cs.validations}) for (auto& q : *l) v.push_back(q);
+      for (const DyndepFile& d2 : w.sc.dyndeps) for (const DyndepEntry& e2 : d2.entries) if (e2.stmt == c) for (auto& q : e2.imp_ins) if (std::find(v.begin(), v.end(), q) == v.end()) v.push_back(q);
+      return v;
+    };
+    auto manifest_producer = [&](const std::string& q) {
+      for (const Stmt& m : w.sc.stmts) if (m.alive) for (auto& o : m.AllOuts()) if (o == q) return m.id;
+      for (const DyndepFile& d2 : w.sc.dyndeps) for (const DyndepEntry& e2 : d2.entries) if (e2.stmt >= 0 && w.sc.stmts[e2.stmt].alive) for (auto& o : e2.imp_outs) if (o == q) return e2.stmt;
+      return -1;
+    };
+    for (const DyndepFile& dd : w.sc.dyndeps) {
+      if (dd.producer < 0 || !w.sc.stmts[dd.producer].alive) continue;
+      for (const DyndepEntry& e : dd.entries) {
+        if (e.stmt < 0 || !w.sc.stmts[e.stmt].alive) continue;
+        for (auto& y : e.imp_ins) {
+          int py = manifest_producer(y);
+          if (py < 0 || py == dd.producer || w.sc.stmts[py].phony || !w.sc.stmts[py].alive) continue;
+          for (auto& z : w.sc.stmts[py].oo_ins) {
+            int pz = manifest_producer(z);
+            if (pz < 0 || pz == dd.producer || pz == e.stmt || w.sc.stmts[pz].phony || w.sc.FindDyndep(z)) continue;
+            for (const Stmt& t : w.sc.stmts) {
+              if (!t.alive || t.phony || t.regen || t.id == e.stmt || t.id == py || t.id == pz) continue;
+              bool uses = false;
+              for (auto& q : inputs_of(t.id)) if (manifest_producer(q) == e.stmt) uses = true;
+              if (!uses) continue;
+              // ... and neither of them is needed by the target for any other reason than x -> y
+              std::set<int> seen;
+              std::vector<int> todo = {t.id};
+              while (!todo.empty()) {
+                int c = todo.back(); todo.pop_back();
+                if (!seen.insert(c).second) continue;
+                for (auto& q : inputs_of(c)) {
+                  if (c == e.stmt && q == y) continue;
+                  int pq = manifest_producer(q);
+                  if (pq >= 0) todo.push_back(pq);
+                }
+              }
+              if (seen.count(py) || seen.count(pz)) continue;
+              tups.push_back({dd.producer, e.stmt, py, pz, t.id, z});
+            }
+          }
+        }
+      }
+    }
+    if (getenv("SIM_DEBUG_STIR")) Note("stir candidates: " + std::to_string(tups.size()));
+    if (tups.empty()) { DoBuild(); return; }
+    Tup u = tups[H((uint32_t)tups.size())];
+    DoBuild();   // everything up to date first
+    if (dead) return;
+    std::string pout;
+    for (auto& o : w.sc.stmts[u.p].AllOuts()) if (!w.sc.FindDyndep(o)) { pout = o; break; }
+    if (pout.empty()) pout = w.sc.stmts[u.p].AllOuts()[0];
+    w.k.Remove(pout);
+    w.k.Remove(u.z);
+    w.k.Remove(w.sc.stmts[u.t].outs[0]);
+    Note("dyndep stir: delete " + pout + " (producer of the dyndep file), " + u.z + " (order-only input of statement " + std::to_string(u.py) + "), " + w.sc.stmts[u.t].outs[0] + "; build only statement " + std::to_string(u.t));
+    force_targets = true; forced_targets = {w.sc.stmts[u.t].outs[0]};
+    DoBuild();
+    rr.stats.n["dyndep_stir"]++;
+  }
+
   // A source file that a needed statement names as an explicit or implicit input is gone:
   // ninja must say so before it starts anything - also when the file is only needed by a
   // validation target - and the build after the file is back is an ordinary one.
@@ -1750,7 +1833,7 @@ struct Driver {
       if (i == 0 && H(8) != 0) { DoBuild(); continue; }
       int ws[] = {prof.w_build, prof.w_edit, prof.w_touch, prof.w_del_out, prof.w_change_cmd, prof.w_change_rsp,
                   prof.w_regen, prof.w_del_log, prof.w_del_depfile, prof.w_clean, prof.w_cleandead, prof.w_tool_ro,
-                  prof.w_dry, prof.w_manifest_edit, prof.w_edit_includes, prof.w_empty_source, prof.w_inflate_log, prof.w_include_churn, prof.w_block_dir, invalid_dyndep_run ? 6 : 0, prof.damage ? 8 : 0, prof.subset_then_touch ? 3 : 0, prof.w_restat_tool, prof.w_missing_source};
+                  prof.w_dry, prof.w_manifest_edit, prof.w_edit_includes, prof.w_empty_source, prof.w_inflate_log, prof.w_include_churn, prof.w_block_dir, invalid_dyndep_run ? 6 : 0, prof.damage ? 8 : 0, prof.subset_then_touch ? 3 : 0, prof.w_restat_tool, prof.w_missing_source, prof.w_dyndep_stir};
       int total = 0;
       for (int x : ws) total += x;
       int c = (int)H((uint32_t)total), op = 0;
@@ -1780,6 +1863,7 @@ struct Driver {
         case 21: DoSubsetThenTouch(); break;
         case 22: DoLogTool(); break;
         case 23: DoMissingSource(); break;
+        case 24: DoDyndepStir(); break;
       }
     }
     // histories end with a build so that every change is exercised
